@@ -20,12 +20,14 @@ func init() {
 			"membership (the items map), recency (the eviction list) and the byte counter change together - addNew: list PushFront + map insert + counter += the size stored in the entry; " +
 			"removeElement: list Remove + map delete + counter -= that entry's size; Purge resets all three; every store to an entry's size (update, adjustSize) is accompanied by a counter adjustment in the same function - " +
 			"and no other function writes the map, changes list membership or writes the counter (who-may-write tables, enumerated from the SSA on every run). " +
+			"A method that inserts returns only once shouldEvict() is false (evictIfNeeded, or the false edge of the test); addSized refreshes the recency of a rewritten key. " +
 			"Not decided (value-level): equivalence of the eviction order with a reference LRU, that update+adjustSize net to exactly one size difference, capacity comparisons.",
 		Run: runC28,
 	})
 }
 
 func runC28(c *core.Ctx) {
+	c28InsertionEndsWithTheEvictionLoop(c)
 	const pkg = "storage/lrucache/capacity"
 	capF := c.P.Field(pkg, "capacityLRU", "currentCapacityInBytes")
 	itemsF := c.P.Field(pkg, "capacityLRU", "items")
@@ -200,4 +202,80 @@ func runC28(c *core.Ctx) {
 	}
 	c.Floor("C28/who-may-write", 7)
 	c.Floor("C28/co-update", 11)
+}
+
+// c28InsertionEndsWithTheEvictionLoop: after an insertion the cache is brought back under its
+// limits by evicting until shouldEvict() is false - however many entries that takes. Every method
+// that inserts returns only past a call of evictIfNeeded or the false edge of a shouldEvict() test;
+// evictIfNeeded itself returns only on that edge. A single conditional eviction leaves the cache
+// over its byte limit when the new entry displaces more than one.
+func c28InsertionEndsWithTheEvictionLoop(c *core.Ctx) {
+	const pkg = "storage/lrucache/capacity"
+	notNeeded := func(b *ssa.BasicBlock, si int) bool {
+		ifi, ok := b.Instrs[len(b.Instrs)-1].(*ssa.If)
+		if !ok || si != 1 {
+			return false
+		}
+		call, ok := ifi.Cond.(*ssa.Call)
+		return ok && core.CallDesc(&call.Call).Name == "shouldEvict"
+	}
+	loops := func(in ssa.Instruction) bool {
+		cc := core.CallOf(in)
+		return cc != nil && core.CallDesc(cc).Name == "evictIfNeeded"
+	}
+	n := 0
+	for _, fn := range c.P.FuncsOfPkg(pkg) {
+		if fn.Signature.Recv() == nil || !token.IsExported(fn.Name()) {
+			continue
+		}
+		k := 0
+		core.Instrs(fn, func(in ssa.Instruction) {
+			cc := core.CallOf(in)
+			if cc == nil {
+				return
+			}
+			if nm := core.CallDesc(cc).Name; nm != "addNew" && nm != "addSized" {
+				return
+			}
+			k++
+			n++
+			c.Analysed(fname(fn))
+			esc, path := core.PathQ{Fn: fn, From: in, Via: loops, ViaEdge: notNeeded, Target: core.AnyReturn}.Escape()
+			c.Check(esc == nil, "C28/insertion-ends-with-the-eviction-loop", fmt.Sprintf("%s/insert#%d", fname(fn), k), in.Pos(),
+				"after the insertion the method returns only once shouldEvict() is false",
+				fname(fn)+" can return after an insertion without evicting until shouldEvict() is false ("+c.P.PathString(path)+"): an entry that displaces more than one older entry leaves the cache over its byte limit and holding keys a size-bounded LRU has evicted")
+		})
+	}
+	if fn := anchorM(c, pkg, "capacityLRU", "evictIfNeeded"); fn != nil {
+		esc, path := core.PathQ{Fn: fn, ViaEdge: notNeeded, Target: core.AnyReturn}.Escape()
+		c.Check(esc == nil, "C28/insertion-ends-with-the-eviction-loop", "capacityLRU.evictIfNeeded", fn.Pos(),
+			"evictIfNeeded returns only when shouldEvict() is false",
+			"evictIfNeeded can return while shouldEvict() may still be true ("+c.P.PathString(path)+")")
+	}
+	c.Floor("C28/insertion-ends-with-the-eviction-loop", 4)
+	// a rewrite of an existing key refreshes its recency like any other use
+	if fn := anchorM(c, pkg, "capacityLRU", "addSized"); fn != nil {
+		var found ssa.Instruction
+		core.Instrs(fn, func(in ssa.Instruction) {
+			if lk, ok := in.(*ssa.Lookup); ok && lk.CommaOk && isFieldOf(lk.X, "items") {
+				found = in
+			}
+		})
+		refresh := func(in ssa.Instruction) bool {
+			cc := core.CallOf(in)
+			if cc == nil {
+				return false
+			}
+			nm := core.CallDesc(cc).Name
+			return nm == "update" || nm == "MoveToFront" || nm == "addNew"
+		}
+		if found == nil {
+			c.Undecided("C28/recency-refreshed", "capacityLRU.addSized", fn.Pos(), "no lookup of the key in items")
+		} else {
+			esc, path := core.PathQ{Fn: fn, From: found, Via: refresh, Target: core.AnyReturn}.Escape()
+			c.Check(esc == nil, "C28/recency-refreshed", "capacityLRU.addSized/rewrite", found.Pos(),
+				"every path after the key lookup goes through update (MoveToFront) or addNew",
+				"capacityLRU.addSized can finish after looking the key up without update/MoveToFront or addNew ("+c.P.PathString(path)+"): rewriting an existing key does not refresh its recency, and the key is evicted as if it had not been used")
+		}
+	}
 }
